@@ -1418,6 +1418,14 @@ def pending_removal_tolerant(R, ro, rule):
                     "self.%s.%s(%s) requires the element to be present although a user hook (get_priority) ran since it was known to be: a hook that makes a "
                     "synchronous asynq call ends a nested computation on the empty stack, wait_for() replaces self.%s, and KeyError escapes from the "
                     "computation (set.discard tolerates it)" % (bf, q.attr_call(c)[1], arg, bf))
+    # ... and dropping what is pending replaces the collection: emptying the shared object in place (`.clear()`) pulls it from under a
+    # selection loop that is in the middle of iterating it (the nested computation of a hook ends inside that loop)
+    for m in ro.ts_methods():
+        for n, c in kit.call_sites(m, lambda c: q.attr_call(c)[1] == "clear" and q.attr_call(c)[0] is not None and q.src(q.attr_call(c)[0]) == "self." + bf):
+            R.violation(rule, "%s:clears-in-place" % m.qualname, R.site(m, c),
+                        "%s empties self.%s in place: when it runs for a nested computation started by a get_priority() hook, the enclosing selection loop is "
+                        "iterating that very set - RuntimeError 'set changed size during iteration' ends the computation and nothing is flushed (binding a new "
+                        "set leaves the iterated one alone)" % (m.qualname, bf))
     discards = sum(len(kit.call_sites(m, lambda c: q.attr_call(c)[1] == "discard" and q.attr_call(c)[0] is not None and q.src(q.attr_call(c)[0]) == "self." + bf))
                    for m in ro.ts_methods())
     R.check(n_sites + discards >= 1, rule, "TaskScheduler:takes-selected-out", R.site(ro.flush_one_method()),
@@ -1532,3 +1540,119 @@ def scheduler_lookup_fresh(R, rule):
             if isinstance(st, ast.Assign) and isinstance(st.value, ast.Call) and (q.call_name(st.value) or "").split(".")[-1] == "get_scheduler":
                 R.violation(rule, "%s:module-level" % mod.name, R.site(mod, st), "the module keeps the scheduler of the importing thread in `%s`" % q.src(st.targets[0]))
     R.check(n >= 2, rule, "lookups", "asynq/", "%d scheduler lookups / wait_for calls examined" % n, "fewer than two scheduler lookups found")
+
+
+def safe_trigger_selects_failures(R, rule):
+    """safe_trigger runs every handler, collects what each raised (None for success) and re-raises the first failure.  Which results
+    are failures is decided by `is not None`: an exception object may be falsy (a class defining __len__ or __bool__), and picking
+    by truth value - filter(None, ...), `if error:` - drops it; safe_trigger() then returns normally although a handler failed."""
+    m = R.repo.fn("tools.AsyncEventHook.safe_trigger")
+    bad = []
+    for c in q.calls(m.node):
+        if q.call_name(c) == "filter" and c.args and q.is_none(c.args[0]):
+            bad.append(c)
+    rer = [c for c in q.calls(m.node) if (q.call_name(c) or "").split(".")[-1] == "reraise"]
+    for c in rer:
+        arg = q.src(c.args[0]) if c.args else None
+        for a in q.ancestors(c):
+            if isinstance(a, ast.If):
+                k_, s_, pos_ = q.atom_test(a.test)
+                if k_ == "truth" and s_ == arg:
+                    bad.append(a.test)
+            if isinstance(a, (ast.ListComp, ast.GeneratorExp)):
+                for g in a.generators:
+                    for i in g.ifs:
+                        k_, s_, pos_ = q.atom_test(i)
+                        if k_ == "truth":
+                            bad.append(i)
+    R.check(not bad and bool(rer), rule, m.qualname + ":selects-failures", R.site(m, bad[0] if bad else None),
+            "safe_trigger re-raises every collected failure that is not None",
+            "safe_trigger picks the failures to re-raise by truth value (`%s`): a handler's exception whose class defines __len__ or __bool__ and is falsy is "
+            "dropped - safe_trigger() returns normally although a handler failed" % (q.src(bad[0])[:50] if bad else "no reraise found"))
+
+
+def classes_in_pos(test, v, m, _R=[None]):
+    """Classes named by an isinstance(v, ...) atom (either polarity), resolved in m's module."""
+    k_, s_, pos_ = q.atom_test(test)
+    if k_ == "isinstance" and s_[0] == v:
+        import re as _re
+        out = []
+        for nm in _re.findall(r"[A-Za-z_][A-Za-z_0-9.]*", s_[1]):
+            r = _R[0].repo.resolve_dotted(m.module, nm)
+            if r and r[0] == "class":
+                out.append(r[1])
+        return out
+    return []
+
+
+def dependency_elements_typed(R, ro, rule):
+    """A task's dependency list holds futures of every kind (tasks, batch items, plain/lazy/constant futures).  What a loop or
+    comprehension over it reads from an element is defined for every future - or the element has passed an isinstance() filter
+    naming classes that all define it.  (The profiler's record asks tasks and batch items for to_str()/_total_time; a ConstFuture
+    has neither: AttributeError when the awaiting task completes, with COLLECT_PERF_STATS on only.)"""
+    fb = ro.FutureBase
+    n = 0
+    classes_in_pos.__defaults__[0][0] = R
+
+    def defines(cls, attr):
+        if cls.find_method(attr) is not None:
+            return True
+        return attr in cls.fields()
+    for m in ro.AsyncTask.methods.values():
+        for x in ast.walk(m.node):
+            gens = []
+            if isinstance(x, (ast.ListComp, ast.SetComp, ast.GeneratorExp, ast.DictComp)):
+                gens = [(g.target, g.ifs, [x.elt] if not isinstance(x, ast.DictComp) else [x.key, x.value]) for g in x.generators]
+            elif isinstance(x, ast.For):
+                gens = [(x.target, [], x.body)]
+            for tgt, ifs, bodies in gens:
+                it = x.iter if isinstance(x, ast.For) else [g.iter for g in x.generators if g.target is tgt][0]
+                if q.src(it) != "self._dependencies" or not isinstance(tgt, ast.Name):
+                    continue
+                v = tgt.id
+                # classes the element is known to be an instance of (comprehension filter, or an enclosing `if isinstance(v, ...)`)
+                def classes_in(test):
+                    k_, s_, pos_ = q.atom_test(test)
+                    if k_ == "isinstance" and s_[0] == v and pos_:
+                        import re as _re
+                        out = []
+                        for nm in _re.findall(r"[A-Za-z_][A-Za-z_0-9.]*", s_[1]):
+                            r = R.repo.resolve_dotted(m.module, nm)
+                            if r and r[0] == "class":
+                                out.append(r[1])
+                        return out
+                    return []
+                known = [c for t in ifs for c in classes_in(t)]
+                for b in bodies:
+                    for a in ast.walk(b):
+                        if isinstance(a, ast.Attribute) and isinstance(a.value, ast.Name) and a.value.id == v and isinstance(a.ctx, ast.Load):
+                            guards = list(known)
+                            for anc in q.ancestors(a):
+                                if isinstance(anc, ast.If) and any(a is y for bb in anc.body for y in ast.walk(bb)):
+                                    guards += classes_in(anc.test)
+                                if anc is x:
+                                    break
+                            if not guards and isinstance(x, ast.For):
+                                # guard-clause form: `if not isinstance(v, (A, B)): continue` earlier in the body - every path from
+                                # the loop head to the read crosses the true edge of an isinstance test of the element
+                                mcfg = cfg_of(m)
+                                stx = q.enclosing_stmt(a)
+                                rnodes = [y for y in mcfg.nodes if y.stmt is stx or y.ast is stx]
+                                heads = [y for y in mcfg.nodes if y.ast is x and y.kind in ("loop", "for")]
+                                starts_ = [e.dst for h_ in heads for e in mcfg.out_edges(h_.id, N) if e.label == "iter"]
+                                for tnode in [y for y in mcfg.nodes if y.kind == "test" and classes_in_pos(y.ast, v, m)]:
+                                    def g(nd, tnode=tnode):
+                                        if nd is not tnode and getattr(nd, "id", None) != tnode.id:
+                                            return None
+                                        k_, s_, pos_ = q.atom_test(nd.ast)
+                                        return "T" if pos_ else "F"
+                                    if rnodes and starts_ and kit.path_avoiding_guard(mcfg, rnodes, g, N, sources=starts_) is None:
+                                        guards += classes_in_pos(tnode.ast, v, m)
+                            n += 1
+                            ok = defines(fb, a.attr) if not guards else all(defines(c, a.attr) for c in guards)
+                            R.check(ok, rule, "%s:%s.%s" % (m.qualname, v, a.attr), R.site(m, a),
+                                    "`%s.%s` is defined for every element the loop can see" % (v, a.attr),
+                                    "%s reads `%s.%s` from every element of self._dependencies, but a dependency can be any future (a ConstFuture, a lazy Future, an "
+                                    "ErrorFuture) and %s does not define it: AttributeError when the task completes - under the profiling option only, so a "
+                                    "computation that succeeds without the option fails with it" % (m.qualname, v, a.attr, "FutureBase" if not guards else "/".join(c.name for c in guards)))
+    R.check(n >= 1, rule, "dependency-element-reads", "asynq/async_task.py", "%d reads from dependency elements examined" % n, "no read from dependency elements found")
